@@ -39,20 +39,33 @@ fn dg() -> PD { PD(kani::any()) }
 const GRIND: u32 = 3;
 fn opts() -> ProofOptions { ProofOptions::new(2, 2, GRIND, FieldExtension::None, 2, 1) }
 
-// @ob id=C04 tier=quick req=1 to=1500 fs=1 funcs="ProverChannel::new,commit_trace,get_constraint_composition_coeffs,commit_constraints,get_ood_point,send_ood_trace_states,send_ood_constraint_evaluations,get_deep_composition_coeffs,commit_fri_layer,draw_fri_alpha,grind_query_seed,get_query_positions,build_proof,Context::to_elements,OodFrame::set_trace_states,Commitments::add" bounds="toy AIR (1 column, 8 steps, 1 transition constraint, 1 assertion), 2 queries, blowup 2, grinding 3, 2 FRI commitments; E = base field" sym="public input, trace/constraint/FRI commitments (arbitrary 128-bit digests), all OOD frame elements and evaluations" desc="the coin is seeded with H(context elements || public inputs); every commit_*/send_* absorbs exactly its message, in order, before the next draw; the nonce meets the grinding factor and is the one used for the query positions; the proof carries exactly the absorbed commitments, OOD values and nonce"
+type PC<'a> = ProverChannel<'a, ToyAir, T, PH, SpecCoin>;
+const B_PC: &str = "";
+
+// @ob id=C04 tier=quick req=1 to=900 fs=1 funcs="ProverChannel::new,Context::new,Context::to_elements,TraceInfo::to_elements,ProofOptions::to_elements" bounds="toy AIR (1 column, 8 steps), 2 queries, blowup 2, grinding 3; E = base field" sym="public input" desc="the coin is seeded with H(context elements || public inputs) and nothing has been drawn or absorbed yet"
 #[kani::proof]
 #[kani::unwind(40)]
 #[kani::stub(alloc::fmt::format, nofmt)]
-fn c04_prover_channel_transcript() {
+fn c04_prover_channel_seed() {
     let air = ToyAir::new(TraceInfo::new(1, 8), T::ONE, opts());
     let pv = el();
-    let mut ch = ProverChannel::<ToyAir, T, PH, SpecCoin>::new(&air, vec![pv]);
+    let mut ch = PC::new(&air, vec![pv]);
     let mut seed_elems: Vec<T> = Context::new::<T>(TraceInfo::new(1, 8), opts()).to_elements();
     seed_elems.push(pv);
     assert!(seed_elems.len() * 9 + 1 <= 121); // inside PairHash128's injectivity budget
     assert!(ch.public_coin().seed == PH::hash_elements(&seed_elems));
-    assert!(ch.public_coin().n == 0);
+    assert!(ch.public_coin().n == 0 && ch.public_coin().ctr == 0);
+    kani::cover!(true);
+    core::mem::forget(ch);
+}
 
+// @ob id=C04 tier=quick req=1 to=1500 fs=1 funcs="ProverChannel::commit_trace,get_constraint_composition_coeffs,commit_constraints,get_ood_point,Air::get_constraint_composition_coefficients" bounds="toy AIR (1 column, 8 steps, 1 transition constraint, 1 assertion); E = base field" sym="trace and constraint commitments (arbitrary 128-bit digests)" desc="Reseed(trace root) precedes the composition-coefficient draws (one per constraint), Reseed(constraint root) precedes the draw of the OOD point; nothing else touches the coin"
+#[kani::proof]
+#[kani::unwind(40)]
+#[kani::stub(alloc::fmt::format, nofmt)]
+fn c04_prover_channel_commit_phase() {
+    let air = ToyAir::new(TraceInfo::new(1, 8), T::ONE, opts());
+    let mut ch = PC::new(&air, vec![T::ONE]);
     let d1 = dg();
     ch.commit_trace(d1);
     let cc = ch.get_constraint_composition_coeffs();
@@ -60,6 +73,22 @@ fn c04_prover_channel_transcript() {
     let d2 = dg();
     ch.commit_constraints(d2);
     let _z: T = ch.get_ood_point();
+    let c = ch.public_coin();
+    assert!(c.n == 5);
+    assert!(c.log[0] == Ev::Reseed(d1) && c.log[1] == Ev::Draw && c.log[2] == Ev::Draw);
+    assert!(c.log[3] == Ev::Reseed(d2) && c.log[4] == Ev::Draw);
+    kani::cover!(true);
+    core::mem::forget(cc);
+    core::mem::forget(ch);
+}
+
+// @ob id=C04 tier=quick req=1 to=1500 fs=1 funcs="ProverChannel::send_ood_trace_states,send_ood_constraint_evaluations,get_deep_composition_coeffs,OodFrame::set_trace_states,TraceOodFrame::to_trace_states,Air::get_deep_composition_coefficients" bounds="toy AIR (1 column); OOD frame of 1 column (current, next), 1 constraint evaluation; E = base field" sym="all OOD frame elements and the OOD constraint evaluation" desc="Reseed(H(ood trace states)) then Reseed(H(ood constraint evaluations)) precede the DEEP coefficient draws (one per trace column and composition column)"
+#[kani::proof]
+#[kani::unwind(12)]
+#[kani::stub(alloc::fmt::format, nofmt)]
+fn c04_prover_channel_ood_phase() {
+    let air = ToyAir::new(TraceInfo::new(1, 8), T::ONE, opts());
+    let mut ch = PC::new(&air, vec![T::ONE]);
     let (c0, n0) = (el(), el());
     let frame = TraceOodFrame::new(vec![c0], vec![n0], 1, None);
     ch.send_ood_trace_states(&frame);
@@ -68,39 +97,116 @@ fn c04_prover_channel_transcript() {
     let dc = ch.get_deep_composition_coeffs();
     let ndeep = dc.trace.len() + dc.constraints.len();
     assert!(dc.trace.len() == 1 && dc.constraints.len() == air.context().num_constraint_composition_columns());
+    let c = ch.public_coin();
+    assert!(c.log[0] == Ev::Reseed(PH::hash_elements(&[c0, n0])));
+    assert!(c.log[1] == Ev::Reseed(PH::hash_elements(&[ev])));
+    let mut j = 0; while j < ndeep { assert!(c.log[2 + j] == Ev::Draw); j += 1; }
+    assert!(c.n == 2 + ndeep);
+    kani::cover!(true);
+    core::mem::forget(dc);
+    core::mem::forget(ch);
+}
+
+// @ob id=C04 tier=quick req=1 to=1500 fs=1 funcs="ProverChannel::send_ood_trace_states,OodFrame::set_trace_states,TraceOodFrame::to_trace_states,TraceOodFrame::hash" bounds="OOD frame of 2 columns (1 main + the Lagrange-kernel aux column) with a Lagrange-kernel frame of 2 values" sym="all 6 OOD trace values" desc="prover side: the digest absorbed for the OOD trace frame is H(every OOD trace value carried in the proof: current/next interleaved per column, then the Lagrange-kernel frame); verifier side: TraceOodFrame::hash of the same frame is the same digest"
+#[kani::proof]
+#[kani::unwind(12)]
+#[kani::stub(alloc::fmt::format, nofmt)]
+fn c04_ood_frame_with_lagrange_absorbed() {
+    use air::LagrangeKernelEvaluationFrame;
+    let air = ToyAir::new(TraceInfo::new(1, 8), T::ONE, opts());
+    let mut ch = PC::new(&air, vec![T::ONE]);
+    let (c0, c1, n0, n1, l0, l1) = (el(), el(), el(), el(), el(), el());
+    let frame = TraceOodFrame::new(vec![c0, c1], vec![n0, n1], 1, Some(LagrangeKernelEvaluationFrame::new(vec![l0, l1])));
+    ch.send_ood_trace_states(&frame);
+    let want = PH::hash_elements(&[c0, n0, c1, n1, l0, l1]); // 6 x 9 + 1 bits: injective
+    assert!(ch.public_coin().n == 1 && ch.public_coin().log[0] == Ev::Reseed(want));
+    // verifier side: the frame it parses out of the proof (parsing itself: C03 / C06 / C12) is hashed the same way
+    assert!(frame.hash::<PH>() == want);
+    kani::cover!(true);
+    core::mem::forget(ch);
+}
+
+// @ob id=C04 tier=quick req=1 to=900 funcs="TraceInfo::with_meta,TraceInfo::to_elements,StarkField::from_bytes_with_padding" bounds="128-bit field (canonical representation): 17 metadata bytes = one full 15-byte chunk + a 2-byte tail" sym="all 17 metadata bytes" desc="every byte of the trace metadata reaches the coin seed: the seed elements are exactly the little-endian chunks of the metadata, the last (short) chunk included"
+#[kani::proof]
+#[kani::unwind(20)]
+#[kani::stub(alloc::fmt::format, nofmt)]
+fn c04_trace_meta_reaches_seed_f128() {
+    use math::fields::f128::BaseElement as F;
+    use math::StarkField;
+    let meta: [u8; 17] = kani::any();
+    kani::assume(meta[14] < 0x80); // keep the 15-byte chunk below the modulus irrespective of the field (it is < 2^120 anyway)
+    let info = TraceInfo::with_meta(1, 8, meta.to_vec());
+    let e: Vec<F> = info.to_elements();
+    assert!(e.len() == 4);
+    let mut lo = [0u8; 16]; let mut i = 0; while i < 15 { lo[i] = meta[i]; i += 1; }
+    assert!(e[2].as_int() == u128::from_le_bytes(lo));
+    assert!(e[3].as_int() == (meta[15] as u128) | ((meta[16] as u128) << 8));
+    assert!(e[1].as_int() == 8);
+    kani::cover!(true);
+}
+
+// @ob id=C04 tier=quick req=1 to=900 funcs="TraceInfo::with_meta,TraceInfo::to_elements" bounds="toy field (1 metadata byte per element), 3 metadata bytes" sym="metadata bytes" desc="every metadata byte is one seed element, in order"
+#[kani::proof]
+#[kani::unwind(12)]
+#[kani::stub(alloc::fmt::format, nofmt)]
+fn c04_trace_meta_reaches_seed_toy() {
+    let meta: [u8; 3] = kani::any();
+    let info = TraceInfo::with_meta(1, 8, meta.to_vec());
+    let e: Vec<T> = info.to_elements();
+    assert!(e.len() == 5);
+    assert!(e[2].0 == meta[0] as u16 && e[3].0 == meta[1] as u16 && e[4].0 == meta[2] as u16);
+    kani::cover!(true);
+}
+
+// @ob id=C04 tier=quick req=1 to=1500 fs=1 funcs="ProverChannel::commit_fri_layer,draw_fri_alpha,grind_query_seed,get_query_positions,build_proof" bounds="toy AIR, 2 queries, LDE domain 16, grinding 3, 2 FRI commitments" sym="FRI commitments" desc="each FRI commitment is absorbed before its alpha; the nonce found by grinding meets the grinding factor under the coin's measure, is the nonce the query positions are drawn with (over the whole LDE domain, requested count) and is the one stored in the proof"
+#[kani::proof]
+#[kani::unwind(40)]
+#[kani::stub(alloc::fmt::format, nofmt)]
+fn c04_prover_channel_fri_and_queries() {
+    use fri::ProverChannel as _;
+    let air = ToyAir::new(TraceInfo::new(1, 8), T::ONE, opts());
+    let mut ch = PC::new(&air, vec![T::ONE]);
     let (f0, f1) = (dg(), dg());
-    <ProverChannel<ToyAir, T, PH, SpecCoin> as fri::ProverChannel<T>>::commit_fri_layer(&mut ch, f0);
-    let _a0: T = <ProverChannel<ToyAir, T, PH, SpecCoin> as fri::ProverChannel<T>>::draw_fri_alpha(&mut ch);
-    <ProverChannel<ToyAir, T, PH, SpecCoin> as fri::ProverChannel<T>>::commit_fri_layer(&mut ch, f1);
-    let _a1: T = <ProverChannel<ToyAir, T, PH, SpecCoin> as fri::ProverChannel<T>>::draw_fri_alpha(&mut ch);
+    ch.commit_fri_layer(f0);
+    let _a0: T = ch.draw_fri_alpha();
+    ch.commit_fri_layer(f1);
+    let _a1: T = ch.draw_fri_alpha();
     ch.grind_query_seed();
     let pos = ch.get_query_positions();
-    assert!(pos.len() <= 2);
-
-    // ---- the observed sequence of coin operations
+    assert!(pos.len() >= 1 && pos.len() <= 2);
     let log = ch.public_coin().log;
     let n = ch.public_coin().n;
-    let mut k = 0;
-    assert!(log[k] == Ev::Reseed(d1)); k += 1;
-    assert!(log[k] == Ev::Draw && log[k + 1] == Ev::Draw); k += 2;
-    assert!(log[k] == Ev::Reseed(d2)); k += 1;
-    assert!(log[k] == Ev::Draw); k += 1;
-    assert!(log[k] == Ev::Reseed(PH::hash_elements(&[c0, n0]))); k += 1;
-    assert!(log[k] == Ev::Reseed(PH::hash_elements(&[ev]))); k += 1;
-    let mut j = 0; while j < ndeep { assert!(log[k] == Ev::Draw); k += 1; j += 1; }
-    assert!(log[k] == Ev::Reseed(f0) && log[k + 1] == Ev::Draw); k += 2;
-    assert!(log[k] == Ev::Reseed(f1) && log[k + 1] == Ev::Draw); k += 2;
-    let nonce = match log[k] { Ev::DrawInts(nq, dom, nonce) => { assert!(nq == 2 && dom == 16); nonce }, _ => { assert!(false); 0 } };
-    k += 1;
-    assert!(k == n);
-    // proof-of-work: the stored nonce is one whose measure meets the grinding factor (SpecCoin's measure is nonce & 31)
+    assert!(log[0] == Ev::Reseed(f0) && log[1] == Ev::Draw);
+    assert!(log[2] == Ev::Reseed(f1) && log[3] == Ev::Draw);
+    let nonce = match log[4] { Ev::DrawInts(nq, dom, nonce) => { assert!(nq == 2 && dom == 16); nonce }, _ => { assert!(false); 0 } };
+    assert!(n == 5);
     assert!(nonce >= 1 && (nonce & 31) as u32 >= GRIND);
-
-    // ---- the proof carries exactly what was absorbed
     let q = || Queries::read_from(&mut SliceReader::new(&[0u8; 8])).unwrap();
     let proof = ch.build_proof(vec![q()], q(), FriProof::new_dummy(), pos.len(), None);
     assert!(proof.pow_nonce == nonce);
-    let (tr, cr, fr) = proof.commitments.clone().parse::<PH>(1, 2).unwrap();
+    kani::cover!(true);
+    core::mem::forget(proof);
+}
+
+// @ob id=C04 tier=quick req=1 to=1500 fs=1 funcs="ProverChannel::commit_trace,commit_constraints,commit_fri_layer,send_ood_trace_states,send_ood_constraint_evaluations,build_proof,Commitments::add,Commitments::parse,OodFrame::parse" bounds="toy AIR; 1 trace commitment, 1 constraint commitment, 2 FRI commitments, OOD frame of 1 column" sym="all commitments, OOD frame elements and evaluation" desc="the proof carries exactly the values that were absorbed: commitments in order, OOD trace states and OOD constraint evaluations"
+#[kani::proof]
+#[kani::unwind(40)]
+#[kani::stub(alloc::fmt::format, nofmt)]
+fn c04_prover_channel_proof_carries_absorbed() {
+    use fri::ProverChannel as _;
+    let air = ToyAir::new(TraceInfo::new(1, 8), T::ONE, opts());
+    let mut ch = PC::new(&air, vec![T::ONE]);
+    let (d1, d2, f0, f1) = (dg(), dg(), dg(), dg());
+    ch.commit_trace(d1);
+    ch.commit_constraints(d2);
+    let (c0, n0, ev) = (el(), el(), el());
+    ch.send_ood_trace_states(&TraceOodFrame::new(vec![c0], vec![n0], 1, None));
+    ch.send_ood_constraint_evaluations(&[ev]);
+    ch.commit_fri_layer(f0);
+    ch.commit_fri_layer(f1);
+    let q = || Queries::read_from(&mut SliceReader::new(&[0u8; 8])).unwrap();
+    let proof = ch.build_proof(vec![q()], q(), FriProof::new_dummy(), 1, None);
+    let (tr, cr, fr) = proof.commitments.clone().parse::<PH>(1, 1).unwrap();
     assert!(tr.len() == 1 && tr[0] == d1 && cr == d2 && fr.len() == 2 && fr[0] == f0 && fr[1] == f1);
     let (fr2, evs) = proof.ood_frame.clone().parse::<T>(1, 0, 1).unwrap();
     assert!(fr2.current_row().len() == 1 && fr2.current_row()[0] == c0 && fr2.next_row()[0] == n0);
@@ -199,3 +305,4 @@ fn c04_vacuity_twin() {
     if v.is_ok() && coin.n == 4 { assert!(false); }
     core::mem::forget(v);
 }
+
